@@ -307,9 +307,9 @@ class Spec(unit.UnitSpec):
 
 
 META = {
-    "text": "Lean model of find_prev/find_next (fast, naive, public with the debug cross-check) and scan (fast word-at-a-time, naive), transcribed with their word stepping, alignment tests and mapped-ness caching. Proved: per-range lemmas (trailing-zero / highest-bit selection under the range mask: find_first/last_non_zero_bit return the lowest/highest set bit of [start,end)), the exact characterisation of the one in-scope disagreement of the real code (findPrev_own_region_defect: the fast quick check ignores the search limit) with a decide witness, the agreement of the quick-check case otherwise (…_partial), decide-checked counter-models outside the scope (fast ≠ naive across an unmapped data chunk with mapped metadata; fast vs naive scan on a region-unaligned end). The top-level equivalences fast = naive under MapConsistent are stated in the file and tied by the exact differential + independent naive-scan oracle + the debug build's own fast == naive assertion.",
-    "note": "Partial: top-level findPrev/findNext/scan fast = naive theorems are stated (comments) but only per-range lemmas and counter-models are proved; equivalence is evidenced by exact differential against the real code (all three variants) and an independent Python naive scan. Trusted: Lean kernel + standard axioms; sampling differential.",
-    "technique": "Lean 4 (per-range lemmas, decide witnesses) + exact differential of fast/naive/public variants + independent naive-scan oracle + debug-build internal assertion",
+    "text": "Lean model of find_prev/find_next (fast, naive, public with the debug cross-check) and scan (fast word-at-a-time, naive), transcribed with their word stepping, alignment tests and mapped-ness caching. Proved for every spec, memory, origin, limit and mapping environment in the property's scope (MapConsistent: mapped data => mapped metadata, nothing readable behind an unmapped data region): findPrev_fast_eq_simple, findNext_fast_eq_simple (fast = naive), findPrev_spec / findNext_spec (the result is exactly the nearest region start within the limit whose field is non-zero with no unmapped region before it), findPrev_public / findNext_public (the debug build's internal fast == naive assertion never fires), scanFast_eq_scanSpec, scan_fast_eq_naive, scan_spec, scan_public_spec (the scan yields exactly the regions of [start,end) with a non-zero field, ascending, once each); plus the per-range bit lemmas, the exact characterisation of the pinned code's one in-scope disagreement (findPrev_own_region_defect, repaired by a fix: commit) and decide-checked counter-models outside the scope. Tie: exact differential of all three variants + independent naive-scan oracle.",
+    "note": "Side conditions of the fast = naive theorems that come from the code, all explicit hypotheses with examples: table start aligned to the field size, logBits <= logRegion for sub-byte fields, 0 < table start, `mapped a or R <= a` for the forward search (findNext_region0_witness shows it is needed), metaAddr a < 2^64 - 1 and a + 1 < 2^64 for the backward search. Trusted: Lean kernel + standard axioms; hand-written model tied by the sampling differential.",
+    "technique": "Lean 4 proof (tiling of the bit interval by break_bit_range, position-level search lemmas, region-level characterisation; all mapping environments) + exact differential of fast/naive/public variants + independent naive-scan oracle",
 }
 
 
